@@ -1036,18 +1036,22 @@ func translate3(repo string, tgs []target3, b *strings.Builder) {
 	pkg := loadPkg3(repo)
 	methods := map[string]method3{}
 	for _, tg := range tgs {
-		f, ok := pkg.files[tg.file]
-		if !ok {
-			fmt.Fprintf(os.Stderr, "gotr: %s: no such file\n", tg.file)
-			os.Exit(2)
-		}
+		// the method is looked for in every file of the package (it may have been moved out of the file it used to live in)
+		var f *ast.File
 		var fd *ast.FuncDecl
 		n := 0
-		for _, d := range f.Decls {
-			if x, ok := d.(*ast.FuncDecl); ok && x.Name.Name == tg.name && x.Body != nil && x.Recv != nil && len(x.Recv.List) == 1 &&
-				recvTypeName(x.Recv.List[0].Type) == tg.recv {
-				fd = x
-				n++
+		var fnames []string
+		for fn := range pkg.files {
+			fnames = append(fnames, fn)
+		}
+		sort.Strings(fnames)
+		for _, fn := range fnames {
+			for _, d := range pkg.files[fn].Decls {
+				if x, ok := d.(*ast.FuncDecl); ok && x.Name.Name == tg.name && x.Body != nil && x.Recv != nil && len(x.Recv.List) == 1 &&
+					recvTypeName(x.Recv.List[0].Type) == tg.recv {
+					fd, f = x, pkg.files[fn]
+					n++
+				}
 			}
 		}
 		if n != 1 {
